@@ -299,7 +299,7 @@ class Engine(object):
     def ev_Dict(self, n, st, k):
         if n.keys:
             raise Unsupported('dict literal with entries')
-        t = self.hint_type(n, 'empty_dict')
+        t = self.hint_type(n, 'empty_dict') or getattr(n, '_dict_type', None)
         if t is None:
             raise Unsupported('type of {} at line %s is not given in the spec hints' % n.lineno)
         return k(st, st.new_dict(t.args[0], t.args[1]))
@@ -1057,6 +1057,15 @@ class Engine(object):
     def ex_Assign(self, n, st, k):
         if len(n.targets) == 1 and isinstance(n.targets[0], ast.Name):
             n.value._target_name = n.targets[0].id
+        if (len(n.targets) == 1 and isinstance(n.targets[0], ast.Attribute) and isinstance(n.value, ast.Dict) and not n.value.keys
+                and isinstance(n.targets[0].value, ast.Name) and n.targets[0].value.id in st.env and st.env[n.targets[0].value.id].ty.kind == 'ref'):
+            # `obj.field = {}`: the dict type is the declared type of the field
+            try:
+                _nm, _ty = st.field_family(st.env[n.targets[0].value.id].ty.args[0], n.targets[0].attr)
+                if _ty.kind == 'dict':
+                    n.value._dict_type = _ty
+            except Exception:
+                pass
         def got(s, v):
             def step(i, s2):
                 if i == len(n.targets):
